@@ -129,6 +129,25 @@ PROPS = {
             "C16: presence rules (Model/Stats.lean expectedPresent) are hand-transcribed from extract_stats / DivergenceStats::from and tied per draw; low-rank `inner.is_some()` is not observable, so mass_matrix_eigvals presence is accepted either way when an update with store_mass_matrix is reported",
         ],
     },
+    "C19": {
+        "gen": ["Settings"],
+        "thm_module": "NutsModel.Thm.C19Settings",
+        "namespace": "NutsModel.C19",
+        "theorems": ["roundtrip", "fromJson_conforms", "presets_wf", "settings_roundtrip", "presets_names"],
+        "harness": "C19",
+        "level": "proof",
+        "rule": ("the default value and random values of each of the six settings types (every field randomised: floats over 24 orders of "
+                 "magnitude incl. 0, negative and the smallest normal, integers incl. 0 and u64::MAX, every enum variant, None/Some, nested "
+                 "adaptation options) -> serde_json; the JSON document is decoded by the Lean model with the type descriptor GENERATED from "
+                 "the Rust sources and re-encoded (equal modulo member order). Direct oracle: from_str(to_string(s)) re-serialises to the "
+                 "same JSON; for a sanitised random variant of each value a 25-draw chain built from the decoded settings is bit-identical "
+                 "to the one built from the original. distinct_nontrivial = settings values whose decoded copy reproduced the chain."),
+        "trusted": [
+            "C19: proved: fromJson ty (toJson v) = some v for every well-formed type descriptor and conforming value (any nesting), and the six generated settings descriptors are well-formed (decide, re-run on regenerated data) -- so a skipped/renamed/defaulted field, a duplicate name or an added #[serde(...)] attribute breaks the translator or the proof",
+            "C19: assumed: serde's derived impls behave as modelled (Model/Serde.lean: externally tagged enums, unknown keys ignored, missing key = error) and serde_json round-trips finite f64 -- both tied by the correspondence on every run; NaN/inf are outside the property",
+            "C19: 'the settings stored in a trace's metadata are those the run used' is checked with the Zarr backends in C14/C15, not here",
+        ],
+    },
     "C17": {
         "gen": [],
         "thm_module": "NutsModel.Thm.C17",
